@@ -38,6 +38,9 @@ CHECKS = {
     "C17": dict(level="exploration", technique="deterministic simulation (run-built innovation histories with varying dimension; lock-step reference detector; scaled-innovation monotonicity probe; task retry)",
                 text="full estimation runs with each detector kind and drawn thresholds / windows / fading factors over mixed optical/radar networks and unplanned impulses; a reference detector holding the (NIS, dimension) history is stepped on exactly the innovations and covariances the filter passes to the real detector",
                 note="scipy chi2.isf is the bound; near-bound calls indeterminate; histories up to 8 (quick) / 16 (thorough) steps; fading-memory dof with varying dimension accepts three readings"),
+    "C18": dict(level="exploration", technique="deterministic simulation (end-to-end MMAE runs driven by stored history and impulse size; reference Bayes rule in log space and mixture moments per adaptive update)",
+                text="full runs in which an unplanned impulse triggers detection, hypothesis generation from the stored observation/estimate history and several SMM / GPB1 updates until pruning or convergence; every adaptive update is compared with rsim's own prior x Gaussian-likelihood rule (with the documented underflow fallback), mixture mean and moment-matched covariance, and the hand-over at closure",
+                note="per-model UKF updates trusted here (C16 monitors them); model counts 2..31 as produced by gap/interval arithmetic; Lambert failures during initialisation are counted, not judged"),
     "C19": dict(level="fault_enumeration", technique="deterministic simulation with fault injection on external data (two-phase runs; importer file with seeded gaps / extras / duplicates / shuffles; per-step state, error-type and file-hash oracles)",
                 text="phase 1 produces a real output database, rsim.importer mutates it into an importer file (gaps at chosen or - thorough - all (agent, epoch) cells, dropped agents, 1-20 unrelated agents, duplicated and shuffled rows), phase 2 runs with targets/sensors/observations imported; imported states must be bit-equal to the rows, a gap must stop the run with MissingEphemerisError at that step and never otherwise, imported observations must reach exactly their target's update, the file hash must not change",
                 note="importer schema = output schema of the same code; run as root so read-only-ness is judged by file hash, not permissions"),
